@@ -115,6 +115,10 @@ func tagToField(input reflect.Value, tagType TagType) map[string]reflect.Value {
 			names = append(names, multirefs...)
 
 			for _, name := range names {
+				if name == "" {
+					// No (or an empty) multiref tag
+					continue
+				}
 				ttf[name] = field
 			}
 		case Doc:
